@@ -25,17 +25,22 @@ def _nontrivial_default(r):
     return r["outcome"] == "completed" and r["n_polls"] >= 1 and r["n_searches"] >= 1
 
 
+def _k(rng, kmax):
+    # fault positions biased toward the early invocations (small runs have few of them)
+    return 1 + int((kmax - 1) * rng.random() ** 2.5)
+
+
 def _fault_plan(rng, kinds, nmax=3):
     faults = []
     for _ in range(rng.randrange(1, nmax + 1)):
         k = gen._choice(rng, kinds)
         if k == "fit":
-            faults.append(dict(seam="fit", k=rng.randrange(1, 25), len=gen._choice(rng, [1, 1, 2, 3, 4]),
+            faults.append(dict(seam="fit", k=_k(rng, 25), len=gen._choice(rng, [1, 1, 2, 3, 4]),
                                kind=gen._choice(rng, ["entry", "mid"])))
         elif k == "update":
-            faults.append(dict(seam="update", k=rng.randrange(1, 40)))
+            faults.append(dict(seam="update", k=_k(rng, 40)))
         elif k == "predict":
-            faults.append(dict(seam="predict", k=rng.randrange(1, 60),
+            faults.append(dict(seam="predict", k=_k(rng, 60),
                                kind=gen._choice(rng, ["nan_mean", "inf_mean", "nan_var", "neg_var"])))
     return faults
 
@@ -156,7 +161,7 @@ def make_cases(prop, tier, seed, n=None):
                     # single fit fault only
                     kinds = [k for k in kinds if k != "fit1"]
                     if rng.random() < 0.5:
-                        scn["faults"] = [dict(seam="fit", k=rng.randrange(1, 20), len=1, kind=gen._choice(rng, ["entry", "mid"]))]
+                        scn["faults"] = [dict(seam="fit", k=_k(rng, 12), len=1, kind=gen._choice(rng, ["entry", "mid"]))]
                     else:
                         scn["faults"] = _fault_plan(rng, kinds, 2)
                 else:
